@@ -381,6 +381,9 @@ func RunArtela(sc *Scenario, opt ArtelaOpts) *ArtelaRun {
 		} else {
 			evm.CloseAspectCall()
 		}
+		if inv.Reset {
+			evm.Reset(evm.TxContext, evm.StateDB)
+		}
 		if opt.BeforeInv != nil {
 			opt.BeforeInv(i, evm, st)
 		}
@@ -546,6 +549,9 @@ func RunUpstream(sc *Scenario, opt UpOpts) *UpRun {
 		rec.add(Ev{K: EvInvBegin, PC: uint64(i)})
 		if logger != nil && !opt.NoTxEvents {
 			logger.CaptureTxStart(inv.Gas)
+		}
+		if inv.Reset {
+			evm.Reset(evm.TxContext, evm.StateDB)
 		}
 		obs := upInvoke(evm, inv)
 		if logger != nil && !opt.NoTxEvents && obs.Panic == "" {
